@@ -451,7 +451,9 @@ func c05Alphabet() []c05Op {
 	for _, pq := range [][2]string{{"a", "b"}, {"a", "c"}, {"b", "a"}, {"c", "a"}, {"a/x", "c"}, {"../a", "b/x"}, {"$ROOT/a", "c"}, {"a", "$ROOT/c"}, {"$ROOT/a/x", "$ROOT/b"}} {
 		ops = append(ops, c05Op{Name: "Symlink", P: pq[0], Q: pq[1]})
 	}
-	for _, g := range []string{"*", "a/*", "*/x", "?", "[ab]", "*/*", "$ROOT/*", "$ROOT/*/x", "a", "["} {
+	for _, g := range []string{"*", "a/*", "*/x", "?", "[ab]", "*/*", "$ROOT/*", "$ROOT/*/x", "a", "[",
+		// patterns without metacharacters that are not in their shortest form, and a directory part written with a trailing separator
+		"a/", "./a", "a//x", "$ROOT/a/", "*/", "a/./*"} {
 		ops = append(ops, c05Op{Name: "Glob", P: g})
 	}
 	return ops
